@@ -452,3 +452,7 @@ def main(ctx):
 
     ctx.histories("reads-on-one-handle", [()], execute, depth=ctx.pick(2, 3), nodedup_depth=ctx.pick(2, 3),
                   bounds=dict(ops=OPS, table=str(HT)))
+
+    # ------------------------------------------------ headers carried from another file (mc/carried.py)
+    from mc.carried import carried_headers
+    carried_headers(ctx, "carried-headers", [None])
